@@ -20,7 +20,7 @@ def noHdr : Hdr := { name := none, pin := [], pinout := [], pout := [] }
 definition in `visit_Conditional`): under the standard's rule the caller's `x` is undefined after the call when `k <= 0` -/
 def condBody : List Stmt := [.ifte (.bin (.cmp .gt) (.var "k") (.lit (.int 0))) [.assign (.var "x") (.lit (.int 1))] []]
 theorem conditional_write_is_out_witness :
-    (outlineRegion decls "f" noHdr condBody).outs = ["x"] ∧ mustDef "x" condBody = false := by decide
+    (outlineRegion decls "f" noHdr condBody).outs = ["x"] ∧ liveIn "x" condBody = none := by decide
 
 /-- `a(2) = k`: the array is passed, its shape symbol `n` is not: the new routine declares `a(n)` with an undeclared `n` -/
 def shapeBody : List Stmt := [.assign (.idx "a" [.lit (.int 2)]) (.var "k")]
